@@ -63,6 +63,9 @@ def run_check(copy, prop, runs, seed):
     cmd = [os.path.join(HOME, "check"), prop, "--tier", "quick"]
     if runs:
         cmd += ["--runs", str(runs)]
+    if os.environ.get("VERIF_MUTANT_FAST", "1") == "1":
+        cmd += ["--no-minimise"]
+        env["VERIF_MAX_REPORTS"] = "1"
     t0 = time.time()
     # evidence of mutant runs must not overwrite the real evidence: run in a throw-away VERIF_HOME view
     env["VERIF_EVIDENCE_DIR"] = out_dir
